@@ -176,12 +176,15 @@ TermB
 
 const (
 	// numeric references and escapes but no named entity: the entity table (21 k statements to build) is raced in S6
-	tiny1 = "a *b* [c](/d&#65;\\_ \"t&#66;\") [Äx]\n\n[äX]: /f1\n"
-	tiny2 = "# e &#67; {title=t2 lang=l2 slot=s2}\n\n- f `g` [h](/i&#x68; 'u&#x69;') [Жy][]\n\n[жY]: /f2\n"
-	tiny3 = "> h &#74;\n\n## k {slot=s3 title=t3 lang=l3 itemref=i3}\n\n1. i ![j\n   j2](/k&#75;) [Σz]\n\n[σZ]: /f3\n"
-	warm  = "warm *up* &amp; [x](/y) `z`\n\n| a |\n|---|\n| b |\n"
-	ent1  = "&amp; x &copy;\n"
-	ent2  = "[a](/u?&para;=1 \"&reg;\")\n"
+	tiny1    = "a *b* [c](/d&#65;\\_ \"t&#66;\") [Äx]\n\n[äX]: /f1\n"
+	tiny2    = "# e &#67; {title=t2 lang=l2 slot=s2}\n\n- f `g` [h](/i&#x68; 'u&#x69;') [Жy][]\n\n[жY]: /f2\n"
+	tiny3    = "> h &#74;\n\n## k {slot=s3 title=t3 lang=l3 itemref=i3}\n\n1. i ![j\n   j2](/k&#75;) [Σz]\n\n[σZ]: /f3\n"
+	twoInst1 = "Title one\n===\n\nSub one {#x1 .c1}\n---\n\n# atx one #\n\nline\nbreak ![i\nj](/u1) <b>r</b>\n\n- [ ] t1\n\n| a |\n|:--|\n| b |\n\nx[^1] \"q\" --\n\n[^1]: n1\n"
+	twoInst2 = "Title two\n===\n\nSub two {#x2 .c2}\n---\n\n## atx two\n\nline\nbreak ![k\nl](/u2) <i>r</i>\n\n- [x] t2\n\n| c | d |\n|--:|:-:|\n| e |\n\ny[^2] 'q' ...\n\n[^2]: n2\n"
+	twoInst3 = "Title three\n===\n\n### atx three {#x3}\n\nSub three\n---\n\nw\nz\n"
+	warm     = "warm *up* &amp; [x](/y) `z`\n\n| a |\n|---|\n| b |\n"
+	ent1     = "&amp; x &copy;\n"
+	ent2     = "[a](/u?&para;=1 \"&reg;\")\n"
 )
 
 // failAfter accepts k bytes in total and then fails every write.
@@ -305,6 +308,15 @@ var Scenarios = []Scenario{
 			}
 			return &Instance{Bodies: []func() Result{failing(tiny1, 20), convertBody(md, tiny2), failing(tiny3, 0)}}
 		}},
+	{"S10-two-instances", "two differently configured instances in one process: goroutines 0 and 2 Convert on instance A (the configuration's extensions only, no parser or renderer options) while goroutine 1 makes the first use of instance B (the full configuration: its options arrive through the option channels at first use); every call must return what it returns alone — an instance's set-up must not reach into another instance", 3,
+		func(cfg core.Cfg) *Instance {
+			plain := cfg
+			plain.AutoID, plain.Attr, plain.Unsafe, plain.XHTML, plain.HardWraps, plain.Explicit = false, false, false, false, false, false
+			full := cfg
+			full.AutoID, full.Attr, full.XHTML, full.HardWraps = true, true, true, true
+			a, b := plain.New(), full.New()
+			return &Instance{Bodies: []func() Result{convertBody(a, twoInst1), convertBody(b, twoInst2), convertBody(a, twoInst3)}}
+		}},
 	{"S7-default-instance", "two goroutines call the package-level goldmark.Convert (shared default instance)", 2,
 		func(cfg core.Cfg) *Instance {
 			mk := func(doc string) func() Result {
@@ -333,7 +345,7 @@ func dumpKinds(n ast.Node) string {
 // Find returns the scenario with the given name (prefix match on "S<n>").
 func Find(name string) *Scenario {
 	for i := range Scenarios {
-		if Scenarios[i].Name == name || (len(name) == 2 && Scenarios[i].Name[:2] == name) {
+		if Scenarios[i].Name == name || strings.HasPrefix(Scenarios[i].Name, name+"-") {
 			return &Scenarios[i]
 		}
 	}
